@@ -1138,6 +1138,14 @@ def _set_contains(vm, st, s, key):
     return simp(z3.Or(*cs)) if cs else mk_bool(False)
 
 
+def s_set_len(vm, st, callee, args, dest, ret_bb, m):
+    # insertions only add a key on the path where it differs from every stored key, so the stored keys are distinct
+    s = vm.load(st, args[0])
+    if m.group(1) == 'is_empty':
+        return done(vm, st, dest, ret_bb, mk_bool(len(s.data) == 0))
+    return done(vm, st, dest, ret_bb, bv(len(s.data), 64))
+
+
 def s_set_contains(vm, st, callee, args, dest, ret_bb, m):
     s = vm.load(st, args[0])
     key = deref(vm, st, args[1])
@@ -1420,6 +1428,7 @@ TABLE = [
     # sets
     (r'^BTreeSet::<.*>::new$', s_set_new),
     (r'^BTreeSet::<.*>::insert$', s_set_insert),
+    (r'^BTreeSet::<.*>::(len|is_empty)$', s_set_len),
     (r'^BTreeSet::<.*>::contains::<', s_set_contains),
     # tokens
     (r'^TokenStream::new$', s_ts_new),
